@@ -54,6 +54,10 @@ def run(ctx):
                                    kind='GLOBAL-LENGTH', source=src, args=['-%d' % ((1 << (8 * w - 1)) - 752)], config=dict(w=w, stack=64, unchecked=False)))
     seq = [j for j in jobs]
     seq += suites.core_suite(ctx, ctx.budget(120, 2000), configs=((2, 0, False), (2, 3, False), (2, 9, False), (3, 5, False), (4, 7, False), (8, 4, False)), faults=0.0)
+    # stores whose index or right-hand side is changed by the other (evaluation-order family of C01): under the access monitor a
+    # store that is checked against one index and performed at another shows as an access outside the array
+    seq += [('ord%d' % i, src, a, 2, 200, False, 300000) for i, (src, a, tag) in enumerate(gen_special.order_programs(ctx.rng))
+            if tag.startswith(('compound_elem', 'int_', 'byte_'))]
     suites.tight_stack(ctx, seq, label='tight-stack-sequential')
     tt = []
     for w, n in [(2, ctx.budget(80, 2000)), (4, ctx.budget(20, 500))]:
